@@ -332,6 +332,52 @@ def run(tier: str) -> int:
                 stats["after-router:crash"] += 1
                 rep.violation(f"after-router: compiler died with {type(e).__name__}: {str(e)[:200]} (v{v}, k={k})", {"kind": "after-router", "k": k, "version": v})
 
+    # ---- (a4) programs that READ a variable on a path that never wrote it (the compiler's own check refuses them): the refusal must be one
+    # of PyTeal's error types whatever the control shape between the missing store and the load
+    def rbw_programs():
+        U_ = _pt.TealType.uint64
+        c_ = lambda: _pt.Txn.fee() > _pt.Int(5)      # noqa: E731
+        def one_arm():
+            x = _pt.ScratchVar(U_)
+            return _pt.Seq(_pt.If(c_()).Then(x.store(_pt.Int(1))), _pt.Return(x.load()))
+        def two_vars():
+            x, y = _pt.ScratchVar(U_), _pt.ScratchVar(U_)
+            return _pt.Seq(_pt.If(c_()).Then(x.store(_pt.Int(1))).Else(y.store(_pt.Int(2))), _pt.Return(x.load() + y.load()))
+        def in_while():
+            x = _pt.ScratchVar(U_)
+            return _pt.Seq(_pt.While(c_()).Do(_pt.Seq(_pt.Pop(x.load()), x.store(_pt.Int(1)))), _pt.Int(1))
+        def after_loop():
+            x = _pt.ScratchVar(U_)
+            return _pt.Seq(_pt.While(c_()).Do(x.store(_pt.Int(1))), _pt.Return(x.load()))
+        def cond_arms():
+            x = _pt.ScratchVar(U_)
+            return _pt.Seq(_pt.Cond([c_(), x.store(_pt.Int(1))], [_pt.Int(1), _pt.Pop(_pt.Int(2))]), _pt.Return(x.load()))
+        def in_sub():
+            x = _pt.ScratchVar(U_)
+            f = _pt.Subroutine(U_)(lambda: _pt.Seq(_pt.If(c_()).Then(x.store(_pt.Int(1))), x.load()))
+            return _pt.Return(f())
+        def straight():
+            x = _pt.ScratchVar(U_)
+            return _pt.Return(x.load())
+        def several():
+            xs = [_pt.ScratchVar(U_) for _ in range(3)]
+            return _pt.Seq(_pt.If(c_()).Then(xs[0].store(_pt.Int(1))), _pt.If(c_()).Then(xs[1].store(_pt.Int(1))),
+                           _pt.Return(xs[0].load() + xs[1].load() + xs[2].load()))
+        return [one_arm, two_vars, in_while, after_loop, cond_arms, in_sub, straight, several]
+    for mk in rbw_programs():
+        for v in ((6, 10) if tier == "quick" else (4, 6, 8, 9, 10)):
+            for okw in ({}, {"optimize": _pt.OptimizeOptions(scratch_slots=True)}):
+                evaluations += 1
+                try:
+                    _pt.compileTeal(mk(), _pt.Mode.Application, version=v, **okw)
+                    stats["read-before-write:accepted"] += 1      # (whether it must be refused is C17's subject)
+                except (_pt.TealInputError, _pt.TealCompileError, _pt.TealTypeError, _pt.TealInternalError, _pt.TealPragmaError):
+                    stats["read-before-write:refused with a PyTeal error"] += 1
+                except Exception as e:  # noqa: BLE001
+                    stats["read-before-write:crash"] += 1
+                    rep.violation(f"read-before-write program `{mk.__name__}`: compiler died with {type(e).__name__}: {str(e)[:200]} (v{v} {'optimiser on' if okw else ''})",
+                                  {"kind": "read-before-write", "program": mk.__name__, "version": v, "optimiser": bool(okw)})
+
     # ---- (b) random well-typed programs, model outcome class vs real outcome class
     nrand = 260 if tier == "quick" else 4000
     for i in range(nrand):
